@@ -6,7 +6,7 @@ RACE = "Go race detector on the concurrent cases; "
 # id -> (level, technique, text, note, design_ref)
 CHECKS = {
  "C20": ("exploration", "reference-model monitor (independent spec codec) over enumerated/stratified values",
-         "Every generated value is pushed through the real Encode/Len/Decode and compared with an independent codec written from the CRAM spec tables; thorough enumerates all 2^32 int32 values, int64 is stratified over all nine length classes; decode totality over all first bytes x lengths 0..9; cram stream readers fed spec-built containers.",
+         "Every generated value is pushed through the real Encode/Len/Decode and compared with an independent codec written from the CRAM spec tables; thorough enumerates all 2^32 int32 values, int64 is stratified over all nine length classes; decode totality over all first bytes x lengths 0..9; the cram stream readers are fed spec-built containers through whole and short-reading sources (1 byte, 1-11 bytes, random, last bytes with io.EOF, 16-byte bufio) and every decoded header field is compared with the encoded value.",
          "Trusts oracle/tf8.go as a transcription of CRAM spec 2.3; LTF-8 domain (2^64) only sampled.", "3 C20"),
  "C17": ("exploration", "interval-arithmetic reference monitor over enumerated and random chunk lists",
          "Every provided merge strategy is applied to every begin-sorted chunk list of a small alphabet (complete enumeration up to length 3 quick / 5 thorough) and to random large lists; an independent interval-union oracle checks sortedness, coverage, the per-strategy clauses and idempotence.",
@@ -30,16 +30,16 @@ CHECKS = {
          "For each workload of a fixed family the underlying Read/ReadByte/Seek/Write calls of a clean run are counted and a fault (error, partial+error, seek error) is injected at every index k for every wc/rd, cache and delay setting; oracles: every call returns, no library goroutine after Close, errors surface and stay, returned bytes are the model's also after recovery by Seek.",
          "k is exhaustive per (workload, mode, configuration); schedules around the fault are sampled; hangs are decided only in plain (non-race) children.", "3 C09"),
  "C12": ("exploration", "recorded-history checker over snapshots taken inside the underlying writer (prefix / whole-block / durability invariants); race detector",
-         "The underlying writer records the delivered length after every Write returns together with the bytes offered so far; an independent parser verifies each snapshot is a block boundary decoding to a prefix of the written data, Flush+Wait and Close durability, and bam.NewWriter header durability, with seeded write delays and hook-widened compressor schedules.",
-         "No faults here (C09); schedules sampled.", "3 C12"),
+         "The underlying writer records the delivered length after every Write returns together with the bytes offered so far; an independent parser verifies each snapshot is a block boundary decoding to a prefix of the written data, Flush+Wait and Close durability, and bam.NewWriter header durability, with seeded write delays and hook-widened compressor schedules; a fifth of the cases make the k-th underlying write fail slowly and hold every nil return to its promise.",
+         "Fault cases judge only what a nil return promises (Flush+Wait, NewWriter, Close); that a fault is reported at all is C09's clause; schedules sampled.", "3 C12"),
  "C14": ("exploration", "policy-level reference model over exhaustively enumerated short histories; porcupine linearizability check of recorded concurrent histories; runtime deadlock detector; race detector",
-         "All operation sequences up to length 4 (quick) / 5 (thorough) over a 24-operation alphabet on LRU/FIFO/Random x capacity 1..3 x StatsRecorder are executed with reader-style block recycling and compared with a policy-level model; concurrent histories of 2-4 goroutines are recorded at the client boundary and checked with porcupine against the same model (nondeterministic drop victims), and repeated under -race.",
-         "Blocks are immutable in concurrent histories; a porcupine timeout is reported as not judged; Resize(0) not exercised.", "3 C14"),
+         "All operation sequences up to length 4 (quick) / 5 (thorough) over a 24-operation alphabet on LRU/FIFO/Random x capacity 1..3 x StatsRecorder are executed with reader-style block recycling and compared with a policy-level model; concurrent histories of 2-4 goroutines are recorded at the client boundary and checked with porcupine against the same model (nondeterministic drop victims), and repeated under -race; evicted blocks are overwritten and re-offered as the reader does (LRU, Random), blocks are wrapped so that the accessors the caches call yield/spin/sleep (lock convoys open the gaps between critical sections), and long stress runs are decided by the race detector and per-operation assertions.",
+         "FIFO blocks are not recycled in concurrent histories (its Get leaves used blocks in the cache, so a handed-back block may be on loan elsewhere); a porcupine timeout is reported as not judged; Resize(0) not exercised.", "3 C14"),
  "C05": ("exploration", "independent BAM encoder as byte-level output monitor; field-by-field round-trip monitor incl. reference identity and buffer-retention re-check; checkptr build",
          "Generated headers and records covering the stated quantifier are written with the real bam.Writer; the gunzipped output is compared byte for byte with an encoder written from SAMv1 4.2 (bin field masked); the real bam.Reader must return equal records (identity of Ref/MateRef in the read header, aux byte for byte) under all Omit modes, wc/rd/levels, and a returned record is re-checked after the next Read.",
          "Unrepresentable records are not generated; records are literals, not built by sam.NewRecord.", "3 C05"),
  "C13": ("exploration", "reference-model monitor: known record offsets / flat data against chunk-bounded reads (SetChunk, Iterator, ChunkReader)",
-         "BAM streams are encoded and cut into BGZF members by the independent encoders so that records end on, just before, just after and across member ends; LastChunk of every record is checked against the known offsets and every span i..j (all pairs for small files) and random chunk lists in any order must replay exactly; ChunkReader is driven with arbitrary non-record-aligned chunk lists, both End forms, touching and empty chunks, all buffer sizes.",
+         "BAM streams are encoded and cut into BGZF members by the independent encoders so that records end on, just before, just after and across member ends; LastChunk of every record is checked against the known offsets and every span i..j (all pairs for small files) and random chunk lists in any order must replay exactly; ChunkReader is driven with arbitrary non-record-aligned chunk lists, both End forms, touching and empty chunks, all buffer sizes; a third of the cases have a block cache on the reader.",
          "Chunk lists for ChunkReader are ordered and non-overlapping.", "3 C13"),
  "C10": ("fault_enumeration", "mutation enumeration (every truncation length, every position x value substitution) with a prefix/identity oracle from an independent parser",
          "For ten BGZF/BAM streams every cut length (small streams) and every single-byte substitution from the stated value sets is applied and the mutant is read with the real readers (rd 1 and 2); the oracle accepts failure, the original data, or for truncation a clean end only at a member (and record) boundary with everything before it returned and HasEOF false.",
@@ -54,16 +54,16 @@ CHECKS = {
          "k sorted inputs with equal/disjoint/overlapping reference lists whose name order differs from header order are merged with the real Merger for all four sort orders and a custom less; the returned sequence is checked for exactly-once delivery (by SAM line), declared order in terms of the merged header, same-input order, re-linked Ref/MateRef, and error-before-EOF when an input fails at record n.",
          "Inputs are sorted consistently with the merged header order (otherwise no sorted merge exists).", "3 C18"),
  "C19": ("exploration", "reference-model monitor: the generator's own record of bases and byte layout against NewIndex, WriteTo/ReadFrom and every SeqRange",
-         "Generated FASTA files over the stated layout space are indexed with the real NewIndex and compared with the layout the generator recorded while writing; the index is written and re-read; every (start,end) range of short sequences and sampled ranges of long ones are read through File with four buffer sizes and compared with the recorded bases.",
+         "Generated FASTA files over the stated layout space are indexed with the real NewIndex and compared with the layout the generator recorded while writing; the index is written and re-read; every (start,end) range of short sequences and sampled ranges of long ones are read through File with four buffer sizes and compared with the recorded bases; NewIndex is fed through six source-reader kinds, WriteTo also into destinations whose k-th write fails.",
          "Well-formed FASTA only (uniform line width per sequence, no quotes/tabs in names).", "3 C19"),
  "C04": ("exploration", "brute-force overlap oracle over generated sorted record sets, chunk layouts and query sets; real-file differential through bam.Iterator",
          "Record sets biased to tile and bin-level edges are added to the real BAI, tabix and CSI indexes (six CSI geometries) with synthetic and real (bam.Writer/Reader LastChunk) chunk layouts; every query of a generated set is answered by the real Chunks and an interval-union oracle checks that every overlapping record's chunk is covered, for the index as built, after every MergeChunks strategy, after write+read and after both; in real mode the chunks are iterated and overlapping record names must appear.",
          "Completeness only (extra chunks allowed); queries within the scheme's range.", "3 C04"),
- "C15": ("exploration", "round-trip monitor W(R(W(x)))==W(x) plus query/statistics differential and ground-truth statistics from the generator; independent byte-level index encoders",
-         "Indexes built by Add from the C04 generator (BAI, tabix with random header fields, CSI v1/v2 with aux) and index files assembled byte-wise by independent BAI/TBI/CSI encoders (references without bins, no pseudo-bin, no trailing count, unsorted bins) are written, re-read and re-written; bytes, every query answer, NumRefs/ReferenceStats/Unmapped must be identical, and statistics must equal the true counts.",
+ "C15": ("exploration", "round-trip monitor W(R(W(x)))==W(x) plus query/statistics differential and ground-truth statistics from the generator; independent byte-level index encoders; parallel-decode interference monitor under the race detector",
+         "Indexes built by Add from the C04 generator (BAI, tabix with random header fields, CSI v1/v2 with aux) and index files assembled byte-wise by independent BAI/TBI/CSI encoders (references without bins, no pseudo-bin, no trailing count, unsorted bins) are written, re-read and re-written; bytes, every query answer, NumRefs/ReferenceStats/Unmapped must be identical, and statistics must equal the true counts; CSI schemes up to depth 10; independent files decoded by several goroutines at once from dribbling readers must come out as they do alone (also under -race).",
          "An index with no placed record (written as zero references, read back as nil) is skipped.", "3 C15"),
- "C11": ("exploration", "structure-aware mutation of valid encodings with recover()/process-death/step-count oracles in isolated, memory-limited, checkptr children; decoded values pushed through the library's own consumers",
-         "Fifteen decoder entry points are fed valid encodings from the other properties' generators, structure-aware mutants of them and the repository's crasher corpora; a decode must return without panic or process death within 64*len+1024 underlying reads, and every value returned without error is passed to accessors, formatters, writers and index builders under recover. Children run under ulimit -v 1.5 GB; out-of-memory deaths are counted, not judged, and the case resumes after the offending input.",
+ "C11": ("exploration", "structure-aware mutation of valid encodings plus enumerated field/type families with recover()/process-death/step-count oracles in isolated, memory-limited, checkptr children; decoded values pushed through the library's own consumers",
+         "Fifteen decoder entry points are fed valid encodings from the other properties' generators, structure-aware mutants of them and the repository's crasher corpora; a decode must return without panic or process death within 64*len+1024 underlying reads, and every value returned without error is passed to accessors, formatters, writers and index builders under recover. Enumerated families (every aux type and array element type byte x counts x payload shapes; every fixed-size BAM field x edge values x Omit modes; the same for SAM aux text) complement the random mutator; the BGZF entry also seeks to every member-like offset with read-ahead running. Children run under ulimit -v 1.5 GB; a death by one allocation of a declared size is counted, not judged, and the case resumes after the offending input; a slice grown step by step to the limit is a call that does not return (violation).",
          "Findings keyed by (entry point, innermost library function, class); bounded time = bounded underlying reads plus a wall-clock backstop reported as inconclusive; native Go fuzzing is not part of the registered commands.", "3 C11"),
 }
 NOT_BUILT = "check not built yet in this session; see DESIGN.md section 3 for the planned monitor"
